@@ -10,6 +10,7 @@ import (
 	"strconv"
 	"strings"
 
+	"verif/mc/bind"
 	"verif/mc/core"
 	"verif/mc/props"
 )
@@ -63,6 +64,14 @@ func main() {
 		os.Exit(core.ReplayMain(os.Args[2], *times, *expect))
 	case "dump-annotations":
 		b, _ := json.MarshalIndent(props.C09DumpAnnotations(), "", " ")
+		os.Stdout.Write(append(b, '\n'))
+	case "extract-tables":
+		t, err := bind.Extract(os.Getenv("REPO_DIR"))
+		if err != nil {
+			fmt.Fprintln(os.Stderr, err)
+			os.Exit(1)
+		}
+		b, _ := json.MarshalIndent(t, "", " ")
 		os.Stdout.Write(append(b, '\n'))
 	case "list":
 		for id := range core.Props {
